@@ -102,7 +102,38 @@ def run_property(pid, tier, seed):
         if jobs:
             log(f'[{pid}] {len(jobs)} conditions in {len(fams)} families, {nproc} workers')
             # longest-first is unknown; interleave families so that slow ones start early
-            results = xh.run_conditions(jobs, cdir, REPO, nproc=nproc, log=log)
+            # thorough tier: conditions are interleaved over the families (so that a wall budget cuts every family's tail, not whole
+            # families) and no condition is started after VERIF_E1_BUDGET seconds; what was not started is reported, never counted
+            budget = float(os.environ.get('VERIF_E1_BUDGET', '0' if tier == 'quick' else str(meta.get('e1_budget_s', 5400)))) or None
+            if budget:
+                byfam = {}
+                for j in jobs:
+                    byfam.setdefault(cond_info[j['idx']][0].name, []).append(j)
+                order, queues = [], [list(v) for v in byfam.values()]
+                while any(queues):
+                    for q in queues:
+                        if q:
+                            order.append(q.pop(0))
+                jobs = order
+            # scheduling hint only (never a verdict): conditions that were slow in an earlier run are started first, so that the last
+            # worker does not begin a 60 s condition when all the others are idle.  hints/<pid>.json is refreshed by tools/update_hints.py.
+            try:
+                with open(os.path.join(VERIF, 'hints', f'{pid}.json')) as fd:
+                    hint = json.load(fd)
+            except (OSError, ValueError):
+                hint = {}
+            if hint:
+                def _lab(j):
+                    fam, sel = cond_info[j['idx']]
+                    return f'{fam.name}{sel}'
+                jobs = sorted(jobs, key=lambda j: -hint.get(_lab(j), 0.0))       # stable: unhinted conditions keep their order
+            results = xh.run_conditions(jobs, cdir, REPO, nproc=nproc, log=log, budget=budget)
+            try:
+                os.makedirs(os.path.join(VERIF, '.work'), exist_ok=True)
+                with open(os.path.join(VERIF, '.work', f'walls_{pid}_{tier}.json'), 'w') as fd:
+                    json.dump({f'{cond_info[i][0].name}{cond_info[i][1]}': results[i]['wall'] for i in results}, fd)
+            except OSError:
+                pass
         else:
             results = {}
         if os.environ.get('VERIF_DUMP'):
@@ -127,14 +158,18 @@ def run_property(pid, tier, seed):
                 futs = {idx: tpe.submit(xh.replay_concrete, f'harness.{pid}', fam.name, list(sel), args, REPO, tmo)
                         for idx, (fam, sel, args, tmo) in to_replay.items()}
                 replayed = {idx: (to_replay[idx][2],) + tuple(f.result()) for idx, f in futs.items()}
-        n_paths = n_z3 = 0
+        n_paths = n_z3 = n_skipped = 0
         z3t = cpu = 0.0
         samples = []
         for idx in sorted(results):
             r = results[idx]
             fam, sel = cond_info[idx]
-            pf = per_family.setdefault(fam.name, dict(conditions=0, confirmed=0, refuted=0, inconclusive=0, paths=0, z3_queries=0,
-                                                      cpu_s=0.0, desc=fam.desc))
+            pf = per_family.setdefault(fam.name, dict(conditions=0, confirmed=0, refuted=0, inconclusive=0, not_started=0, paths=0,
+                                                      z3_queries=0, cpu_s=0.0, desc=fam.desc))
+            if r['msgs'] and r['msgs'][0][0] == 'SKIPPED':
+                pf['not_started'] += 1
+                n_skipped += 1
+                continue
             pf['conditions'] += 1
             pf['paths'] += r['paths']
             pf['z3_queries'] += r['z3n']
@@ -198,7 +233,8 @@ def run_property(pid, tier, seed):
         cov['states'] += n_paths
         cov['transitions'] += n_z3
         cov['samples'] += samples
-        cov['conditions'] = len(jobs)
+        cov['conditions'] = len(jobs) - n_skipped
+        cov['not_started_wall_budget'] = n_skipped
         cov['discharged'] = sum(p['confirmed'] for p in per_family.values())
         cov['inconclusive'] = len(inconclusive)
         cov['per_family'] = per_family
@@ -331,7 +367,7 @@ def run_property(pid, tier, seed):
     with open(os.path.join(VERIF, 'evidence', f'{pid}.json'), 'w') as fd:
         json.dump(ev, fd, indent=1, default=str)
     log(f'[{pid}] tier={tier} conditions={cov.get("conditions", 0)} discharged={cov.get("discharged", 0)} '
-        f'inconclusive={cov.get("inconclusive", 0)} paths={cov["states"]} z3_queries={cov.get("queries", 0)} '
+        f'inconclusive={cov.get("inconclusive", 0)} not_started={cov.get("not_started_wall_budget", 0)} paths={cov["states"]} z3_queries={cov.get("queries", 0)} '
         f'violations={len(violations)} wall={ev["wall_s"]}s')
     for line in vio_lines:
         log(line)
